@@ -123,7 +123,10 @@ def run(ctx):
             txt = txt.replace('"exta"}', '"exta", ' + ", ".join('"%s"' % k for k in sorted(extras)) + "}", 1)
         return txt
     cases = os.path.join(ctx.tmp, "hist.jsonl")
-    plan = [("ConfigRedact.cfg", None), ("ConfigRedact_d3.cfg", 300)] if q else [("ConfigRedact.cfg", None), ("ConfigRedact_d3.cfg", 12000)]
+    # pem keys: every depth-2 history (+ sampled depth 3); every key FORM: all one-dump histories from each initial file,
+    # and depth-2 histories with runtime updates (sampled in the quick tier)
+    plan = [("ConfigRedact.cfg", None), ("ConfigRedact_forms.cfg", None), ("ConfigRedact_forms2.cfg", 300), ("ConfigRedact_d3.cfg", 200)] if q else \
+           [("ConfigRedact.cfg", None), ("ConfigRedact_forms.cfg", None), ("ConfigRedact_forms2.cfg", None), ("ConfigRedact_d3.cfg", 8000)]
     seen, sampled = set(), False
     with open(cases, "w") as fo:
         for cfg, cap in plan:
@@ -140,7 +143,7 @@ def run(ctx):
     if not q:   # deeper histories, model only (ArrayLen = 2)
         ctx.add_tlc(vlib.run_tlc(ctx, FAMILY, "ConfigRedact", "ConfigRedact_thorough.cfg", timeout=1500,
                                  cfg_text=with_extras("ConfigRedact_thorough.cfg")))
-    for d in ("ConfigRedact_defect1.cfg", "ConfigRedact_defect2.cfg", "ConfigRedact_defect3.cfg"):
+    for d in ("ConfigRedact_defect1.cfg", "ConfigRedact_defect2.cfg", "ConfigRedact_defect3.cfg", "ConfigRedact_defect4.cfg"):
         if vlib.run_tlc(ctx, FAMILY, "ConfigRedact", d, expect_ok=False)["ok"]:
             raise vlib.Inconclusive("ConfigRedact model does not reject " + d)
 
@@ -179,6 +182,19 @@ def run(ctx):
     if fatal:
         ctx.notes.append("MOSN ended the process in %d histories: %s" % (len(fatal), [f[0] for f in fatal]))
         sampled = True
+    # a key-file PATH is not a secret: what the code under verification does with it is recorded, not judged
+    pd = [e for e in evs if e["ev"] == "dump" and "path_shown" in e]
+    cur_form, shown, replaced = "pem", 0, 0
+    for e in evs:
+        if e["ev"] == "new":
+            cur_form = e.get("form", "pem")
+        elif e["ev"] == "dump" and cur_form == "path" and e.get("bytes", 0) > 0:
+            if e.get("path_shown"):
+                shown += 1
+            elif e.get("redacted", 0) > 0:
+                replaced += 1
+    ctx.cov["key_file_path_in_dumps"] = {"shown_as_is": shown, "replaced_by_placeholder": replaced}
+    ctx.notes.append("private_key given as a key-file path: shown as is in %d responses, replaced by the placeholder in %d" % (shown, replaced))
     ndump = sum(1 for e in evs if e["ev"] == "dump")
     ctx.cov["traces_validated_against_impl"] = sum(1 for e in evs if e["ev"] == "new")
     ctx.cov["evaluations"] = ndump
@@ -189,7 +205,9 @@ def run(ctx):
     ctx.cov["rule"] = ("every operation history of length MaxOps ending in a dump over Place(8 positions: listener tls_context, listener "
                        "tls_context_set, cluster, cluster manager, extends (tunnel agent), untyped stream-filter config, a 3-element "
                        "context list inside an untyped network-filter config and a 3-element server list inside an extend, the "
-                       "array positions with every subset of elements carrying an inline key) and Dump(8 endpoints/parameters), from an "
+                       "array positions with every subset of elements carrying an inline key) and Dump(8 endpoints/parameters), every key of a "
+                       "history in one of 7 textual forms (PEM, leading white space, pkcs12 preamble, trailing text, CRLF, EC PARAMETERS + "
+                       "key, key-file path; each shown to work by a real handshake), from an "
                        "initial file with keys nowhere / everywhere (either chain form) / arrays keyed in the first element only, "
                        "enumerated by TLC; each replayed on a real MOSN; a case is one history, an evaluation one admin response "
                        "searched for every key ever configured" + ("; longer histories sampled by VERIF_SEED" if sampled else ""))
